@@ -123,23 +123,70 @@ pub async fn run_link(sc: &Value) {
                 }
                 let mut bad = 0u64;
                 let mut first_bad = Value::Null;
+                // optionally an intact frame follows the damaged one in the same write: in discard mode it must be
+                // found and delivered unaltered (and nothing else)
+                let follow = st.get("follow").and_then(|x| x.as_str()).map(codec::unhex);
+                let follow_parsed = follow.as_ref().and_then(|f| match codec::parse_frame_at(f) {
+                    codec::FrameParse::Frame(fr, _) => Some(fr),
+                    _ => None,
+                });
+                let mut follow_lost = 0u64;
+                let mut follow_altered = 0u64;
                 for v in &variants {
                     let mut f = frame.clone();
                     for bit in v {
                         f[bit / 8] ^= 1 << (bit % 8);
                     }
-                    let (m2, t2) = tokio::io::duplex(4096);
+                    let (m2, t2) = tokio::io::duplex(8192);
                     let (_r2, mut w2) = tokio::io::split(m2);
                     let mut p2 = shim::LinkProbe::new(mode, datagram, max_fragment, is_master, self_addr, local, level, t2);
+                    if let Some(fo) = &follow {
+                        f.extend_from_slice(fo);
+                    }
                     let _ = w2.write_all(&f).await;
-                    if let Ok(Ok(_)) = tokio::time::timeout(Duration::from_millis(1), p2.read()).await {
-                        bad += 1;
-                        if first_bad.is_null() {
-                            first_bad = json!({"bits": v, "hex": codec::hex(&f)});
+                    let mut got = Vec::new();
+                    loop {
+                        match tokio::time::timeout(Duration::from_millis(1), p2.read()).await {
+                            Ok(Ok(x)) => got.push((x.source, x.payload.clone())),
+                            _ => break,
+                        }
+                        if got.len() > 4 {
+                            break;
+                        }
+                    }
+                    match &follow_parsed {
+                        None => {
+                            if !got.is_empty() {
+                                bad += 1;
+                                if first_bad.is_null() {
+                                    first_bad = json!({"bits": v, "hex": codec::hex(&f)});
+                                }
+                            }
+                        }
+                        Some(fp) => {
+                            let exact = got.iter().filter(|(s, p)| *s == fp.src && *p == fp.payload).count();
+                            if got.len() > exact {
+                                // something that is not the intact frame came up (the damaged one, or an altered one)
+                                if got.iter().any(|(s, _)| *s == fp.src) && exact == 0 {
+                                    follow_altered += 1;
+                                } else {
+                                    bad += 1;
+                                }
+                                if first_bad.is_null() {
+                                    first_bad = json!({"bits": v, "hex": codec::hex(&f)});
+                                }
+                            } else if exact == 0 {
+                                follow_lost += 1;
+                                if first_bad.is_null() {
+                                    first_bad = json!({"bits": v, "hex": codec::hex(&f), "lost": true});
+                                }
+                            }
                         }
                     }
                     tick();
                 }
+                line.insert("follow_lost".into(), json!(follow_lost));
+                line.insert("follow_altered".into(), json!(follow_altered));
                 line.insert("variants".into(), json!(variants.len()));
                 line.insert("bad_delivered".into(), json!(bad));
                 line.insert("what".into(), json!(format!("{}-bit flips of a {}-byte frame", flips, frame.len())));
